@@ -20,7 +20,7 @@ Proof. by rewrite /argmin -cats1 foldl_cat. Qed.
 Lemma omin_olt x y : omin x y = if olt y x then y else x.
 Proof.
 rewrite /olt; case: x y => [a|] [b|] //=; rewrite -ltnNge.
-by case: ltngtP.
+by rewrite minnC /minn; case: ifP.
 Qed.
 
 Lemma argmin_val (A : Type) (d : A) s : (argmin d s).1 = ominl [seq av.2 | av <- s].
@@ -42,7 +42,7 @@ Lemma mem_gray m x : (x \in gray m) = (size x == m).
 Proof.
 elim: m x => [|m IH] x /=; first by rewrite inE; case: x.
 rewrite mem_cat; case/lastP: x => [|v b].
-  by apply/negbTE; rewrite negb_or; apply/andP; split; apply/mapP => -[w _] /eqP; rewrite -size_eq0 size_rcons.
+  by apply/negbTE; rewrite negb_or; apply/andP; split; apply/mapP => -[w _]; case: w.
 rewrite size_rcons eqSS -IH.
 apply/orP/idP => [[/mapP[w hw /rcons_inj[-> _]] //|/mapP[w]]|hv].
 - by rewrite mem_rev => hw /rcons_inj[-> _].
@@ -60,4 +60,188 @@ Lemma gray_perm m : perm_eq (gray m) (bvs m).
 Proof.
 apply: uniq_perm; [exact: gray_uniq | by rewrite bvsE bits_uniq |].
 by move=> x; rewrite mem_gray mem_bvs.
+Qed.
+
+Lemma tadd_distr_min (A : Type) (lc : option nat) (f : A -> option nat) (s : seq A) :
+  ominl [seq oadd lc (f j) | j <- s] = oadd lc (ominl [seq f j | j <- s]).
+Proof. by rewrite !ominl_map oaddE big_distrr. Qed.
+
+(* ------------------------------------------------------------------ the tables of the forward pass *)
+Section Trace.
+Variable I : inst.
+Hypothesis Hs : sorted_reads I.
+Hypothesis Hl : forall i, i < nreads I -> r_last (rd I i) < i_ncols I.
+Hypothesis Hnc : no_conflict I.
+Let n := i_ncols I.
+Let m c := size (active I c).
+Let d0 : seq bool * nat := ([::], 0).
+
+Fixpoint PrevT c : table :=
+  if c is c'.+1 then project I c' (dp_column I c' (local_rows I c') (PrevT c')) else prev0 I.
+Definition ColT c : table := dp_column I c (local_rows I c) (PrevT c).
+Definition Rec c : colrec := ColRec (local_rows I c) (PrevT c) (ColT c).
+Definition W c s t : option nat := tlook (PrevT c) s t.
+Definition Vg c x t : option nat :=
+  oadd (local_cost I c x t)
+       (ominl [seq oadd (W c (take (bw I c) x) j) (Some (trans_cost I c j t)) | j <- ts I]).
+
+Lemma ColTE c : ColT c = mktab I (bvs (m c)) (Vg c).
+Proof.
+rewrite /ColT local_rowsE /dp_column /mktab -map_comp.
+apply/eq_in_map => x _ /=; congr pair; apply/eq_in_map => t; rewrite mem_iota add0n /= => ht.
+by rewrite nth_ts.
+Qed.
+
+Lemma V_look c x t : size x = m c -> t < nT I -> tlook (ColT c) x t = Vg c x t.
+Proof. by move=> hx ht; rewrite ColTE tlook_mktab // mem_bvs hx. Qed.
+
+Lemma L_look c x t : size x = m c -> t < nT I -> tlook (local_rows I c) x t = local_cost I c x t.
+Proof. by move=> hx ht; rewrite local_rowsE tlook_mktab // mem_bvs hx. Qed.
+
+Lemma W0 t : t < nT I -> W 0 [::] t = Some 0.
+Proof. by move=> ht; rewrite /W /tlook /= nth_nseq ht. Qed.
+
+Lemma WS c s t : size s = size (kept I c.+1) -> t < nT I ->
+  W c.+1 s t = ominl [seq Vg c x t | x <- bvs (m c) & mask (fmask I c) x == s].
+Proof.
+move=> hs ht; rewrite /W /= -/(ColT c) ColTE projectE // tlook_mktab ?mem_bvs ?hs //.
+by rewrite ominl_map_filter bvsE /m size_active.
+Qed.
+
+Lemma dp_forward_cons c c' cs prev :
+  dp_forward I (c :: c' :: cs) prev =
+  if conflict_in (local_rows I c) then None
+  else omap (cons (ColRec (local_rows I c) prev (dp_column I c (local_rows I c) prev)))
+            (dp_forward I (c' :: cs) (project I c (dp_column I c (local_rows I c) prev))).
+Proof. by []. Qed.
+
+Lemma dp_loop_cons c c' cs prev :
+  dp_loop I (c :: c' :: cs) prev =
+  if conflict_in (local_rows I c) then Conflict
+  else dp_loop I (c' :: cs) (project I c (dp_column I c (local_rows I c) prev)).
+Proof. by []. Qed.
+
+Lemma dp_forward_ok k c : c + k = n ->
+  dp_forward I (iota c k) (PrevT c) = Some [seq Rec c' | c' <- iota c k].
+Proof.
+elim: k c => [|k IH] c hck //.
+have hc : c < n by rewrite -hck -addSnnS ltn_addr.
+case: k IH hck => [|k] IH hck; first by rewrite /= (no_conflict_in Hnc hc).
+rewrite -[iota c k.+2]/(c :: c.+1 :: iota c.+2 k) dp_forward_cons (no_conflict_in Hnc hc).
+rewrite -[c.+1 :: _]/(iota c.+1 k.+1) -[project _ _ _]/(PrevT c.+1) IH ?addSnnS //.
+Qed.
+
+Lemma dp_loop_tab k c : c + k.+1 = n ->
+  dp_loop I (iota c k.+1) (PrevT c) = Cost (ominl [seq ominl e.2 | e <- ColT (c + k)]).
+Proof.
+elim: k c => [|k IH] c hck.
+  have hc : c < n by rewrite -hck addn1.
+  by rewrite /= (no_conflict_in Hnc hc) addn0.
+have hc : c < n by rewrite -hck -addSnnS ltn_addr.
+rewrite -[iota c k.+2]/(c :: c.+1 :: iota c.+2 k) dp_loop_cons (no_conflict_in Hnc hc).
+by rewrite -[c.+1 :: _]/(iota c.+1 k.+1) -[project _ _ _]/(PrevT c.+1) IH ?addSnnS.
+Qed.
+
+(* ------------------------------------------------------------------ the backtrace as a recursion on columns *)
+Definition recsdown c := rev (zip (iota 0 c) [seq Rec c' | c' <- iota 0 c]).
+
+Lemma recsdownS c : recsdown c.+1 = (c, Rec c) :: recsdown c.
+Proof.
+by rewrite /recsdown -addn1 iotaD map_cat zip_cat ?size_map // rev_cat /= add0n.
+Qed.
+
+Definition bt c x p := rev (backtrace I (recsdown c) c x p).
+Definition fp c x t := rcons (bt c x (recomb_arg I c (Rec c) x t)) (x, t).
+
+Lemma fp0 x t : fp 0 x t = [:: (x, t)].
+Proof. by []. Qed.
+
+Lemma fpS c x t :
+  let p := recomb_arg I c.+1 (Rec c.+1) x t in
+  fp c.+1 x t = rcons (fp c (back_index I c (Rec c) (take (bw I c.+1) x) p) p) (x, t).
+Proof. by rewrite /fp /bt recsdownS [backtrace _ _ _ _ _]/= rev_cons. Qed.
+
+Lemma dp_pathE k : n = k.+1 ->
+  dp_path I = Some (fp k (final_arg I k (Rec k)).2.1 (final_arg I k (Rec k)).2.2).
+Proof.
+move=> hn; rewrite /dp_path -/n (@dp_forward_ok n 0) ?add0n // -/(recsdown n) hn recsdownS.
+by rewrite rev_cons.
+Qed.
+
+(* ------------------------------------------------------------------ cost and shape of a path *)
+Definition pterm (pth : seq (seq bool * nat)) c : option nat :=
+  oadd (Some (if c is c'.+1 then trans_cost I c (nth d0 pth c').2 (nth d0 pth c).2 else 0))
+       (local_cost I c (nth d0 pth c).1 (nth d0 pth c).2).
+Definition pcost pth : option nat := oaddl [seq pterm pth c | c <- iota 0 (size pth)].
+Definition pwf (pth : seq (seq bool * nat)) : Prop :=
+  (forall c, c < size pth -> size (nth d0 pth c).1 = m c /\ (nth d0 pth c).2 < nT I) /\
+  (forall c, c.+1 < size pth -> mask (fmask I c) (nth d0 pth c).1 = take (bw I c.+1) (nth d0 pth c.+1).1).
+
+Lemma pterm_rcons pth e c : c < size pth -> pterm (rcons pth e) c = pterm pth c.
+Proof.
+move=> hc; rewrite /pterm nth_rcons hc; case: c hc => [|c] hc //.
+by rewrite nth_rcons (ltnW hc).
+Qed.
+
+Lemma pcost_rcons pth e : pcost (rcons pth e) = oadd (pcost pth) (pterm (rcons pth e) (size pth)).
+Proof.
+rewrite /pcost size_rcons -addn1 iotaD !oaddl_map big_cat /= big_seq1 add0n oaddE; congr tadd.
+by apply: eq_big_seq => c; rewrite mem_iota add0n /= => hc; exact: pterm_rcons.
+Qed.
+
+Lemma size_take_bw c (x : seq bool) : size x = m c.+1 -> size (take (bw I c.+1) x) = size (kept I c.+1).
+Proof.
+move=> hx; rewrite size_take bw_kept hx /m size_active //.
+by case: ltnP => // h; apply/eqP; rewrite eqn_leq h leq_addr.
+Qed.
+
+Lemma fp_ok c x t v : c < n -> size x = m c -> t < nT I -> Vg c x t = Some v ->
+  [/\ size (fp c x t) = c.+1, pcost (fp c x t) = Some v, pwf (fp c x t) & nth d0 (fp c x t) c = (x, t)].
+Proof.
+elim: c x t v => [|c IH] x t v hc hx ht hv.
+  rewrite fp0; split=> //; last first.
+    by split=> [[|c] // _|[|c]] //.
+  move: hv; rewrite /Vg /pcost /= /pterm /= take0.
+  have -> : ominl [seq oadd (W 0 [::] j) (Some (trans_cost I 0 j t)) | j <- ts I] = Some 0.
+    rewrite ominl_map (@eq_big_seq _ _ _ _ _ _ (fun j => Some (trans_cost I 0 j t))).
+      by apply: (@big_tmin_zero _ (fun j => trans_cost I 0 j t) t); rewrite ?mem_iota ?add0n // /trans_cost hamming_refl.
+    by move=> j; rewrite mem_iota add0n /= => hj; rewrite W0.
+  by case: (local_cost I 0 x t) => [l|] //=; rewrite addn0 add0n addn0.
+rewrite fpS; set p := recomb_arg _ _ _ _ _; set s := take _ x; set x' := back_index _ _ _ _ _.
+have hc' : c < n := ltnW hc.
+have hbw : size s = size (kept I c.+1) by exact: size_take_bw.
+move: hv; rewrite /Vg -/s => hv.
+pose cand := [seq (j, oadd (oadd (local_cost I c.+1 x t) (W c.+1 s j)) (Some (trans_cost I c.+1 j t))) | j <- ts I].
+have hp1 : (argmin 0 cand).1 = Some v.
+  rewrite argmin_val -map_comp -hv -tadd_distr_min.
+  by congr ominl; apply: eq_map => j /=; rewrite !oaddE taddA.
+have hpE : p = (argmin 0 cand).2 by rewrite /p /recomb_arg /= L_look.
+have := argmin_mem hp1; rewrite -hpE => /mapP[j]; rewrite mem_iota add0n /= => hj [hpj hval].
+rewrite -hpj in hj hval => {j hpj}.
+case hl: (local_cost I c.+1 x t) hval => [l|] //; case hw: (W c.+1 s p) => [w|] //= [hvE].
+have hw' := hw; rewrite WS // in hw'.
+pose candx := [seq (y, tlook (ColT c) y p) | y <- gray (m c) & mask (fmask I c) y == s].
+have hx1 : (argmin [::] candx).1 = Some w.
+  rewrite argmin_val -map_comp /= -hw'.
+  transitivity (ominl [seq Vg c y p | y <- gray (m c) & mask (fmask I c) y == s]).
+    congr ominl; apply/eq_in_map => y; rewrite mem_filter mem_gray => /andP[_ /eqP hy] /=.
+    exact: V_look.
+  by rewrite !ominl_map_filter; apply: perm_big; exact: gray_perm.
+have hx'E : x' = (argmin [::] candx).2 by [].
+have := argmin_mem hx1; rewrite -hx'E => /mapP[y]; rewrite mem_filter mem_gray => /andP[/eqP hmask /eqP hy] [hyx hyv].
+rewrite -hyx in hmask hy hyv => {y hyx}.
+have hVg : Vg c x' p = Some w by rewrite -V_look.
+case: (IH x' p w hc' hy hj hVg) => hsz hcost [hwf1 hwf2] hlast.
+move: (fp c x' p) hsz hcost hwf1 hwf2 hlast => pth hsz hcost hwf1 hwf2 hlast.
+split.
+- by rewrite size_rcons hsz.
+  rewrite pcost_rcons hcost hsz /pterm !nth_rcons hsz ltnSn ltnn eqxx hlast /= hl /= hvE.
+  by rewrite [_ + l]addnC addnA [w + l]addnC.
+- split=> [k|k]; rewrite size_rcons hsz ltnS.
+    rewrite leq_eqVlt => /orP[/eqP->|hk]; first by rewrite nth_rcons hsz ltnn eqxx.
+    by rewrite nth_rcons hsz hk; apply: hwf1; rewrite hsz.
+  rewrite leq_eqVlt => /orP[/eqP[->]|hk].
+    by rewrite !nth_rcons hsz ltnSn ltnn eqxx hlast.
+  by rewrite !nth_rcons hsz hk (ltnW hk); apply: hwf2; rewrite hsz.
+- by rewrite nth_rcons hsz ltnn eqxx.
 Qed.
